@@ -71,7 +71,7 @@ func rangeOf(l *natLoop) *rangeInfo {
 			for _, in := range b.Instrs {
 				switch e := in.(type) {
 				case *ssa.IndexAddr:
-					if e.X == x {
+					if e.X == x || sameLoadedSlice(e.X, x) {
 						ri.Elem = append(ri.Elem, e)
 					}
 				case *ssa.Index:
@@ -84,6 +84,17 @@ func rangeOf(l *natLoop) *rangeInfo {
 		return ri
 	}
 	return nil
+}
+
+// sameLoadedSlice: a and b are two loads of the same slice variable / field (`for i := range row.Cells`
+// reads row.Cells once for len() and again for &row.Cells[i]).
+func sameLoadedSlice(a, b ssa.Value) bool {
+	la, ok1 := a.(*ssa.UnOp)
+	lb, ok2 := b.(*ssa.UnOp)
+	if !ok1 || !ok2 || la.Op != token.MUL || lb.Op != token.MUL {
+		return false
+	}
+	return la.X == lb.X || pathString(la.X) == pathString(lb.X)
 }
 
 type collector struct {
